@@ -50,7 +50,10 @@ func (ps *PatchOp) Do(ctx ActionContext) error {
 	}
 	oo.Path = path
 	if ps.Value != nil {
-		oo.Value = ps.Value.Value()
+		if v := ps.Value.Value(); v != nil {
+			// the op's own value must not share state with data tree (op can run more than once)
+			oo.Value = v.Clone()
+		}
 	} else if ps.ValueFrom != nil {
 		if n := ctx.Data().Lookup(ctx.TemplateEngine().RenderLenient(*ps.ValueFrom, ss)); n != nil {
 			// value read from data tree must not share state with it
